@@ -318,6 +318,8 @@ func main() {
 	replayDir := filepath.Join(*verifRoot, "replays", cfg.Property)
 	os.MkdirAll(replayDir, 0o755)
 	realViolations := 0
+	confirmedLabel := map[string]bool{}
+	var unconfirmed []string
 	knownPrinted := map[string]bool{}
 	var confirmedList []Violation
 	for i := range eng.violations {
@@ -333,9 +335,10 @@ func main() {
 			ok, out := replayNative(cfg, *verifRoot, path, harnessFuncs)
 			if ok {
 				v.Confirmed = "native replay reproduced: " + out
+				confirmedLabel[v.Harness+"/"+v.Label] = true
 			} else {
 				v.Confirmed = "NOT REPRODUCED: " + out
-				eng.addError(fmt.Sprintf("ENGINE-MISMATCH: %s/%s: solver model did not reproduce natively (%s); replay=%s", v.Harness, v.Label, out, path))
+				unconfirmed = append(unconfirmed, fmt.Sprintf("%s/%s\x00ENGINE-MISMATCH: %s/%s: solver model did not reproduce natively (%s); replay=%s", v.Harness, v.Label, v.Harness, v.Label, out, path))
 				continue
 			}
 		}
@@ -359,6 +362,14 @@ func main() {
 		confirmedList = append(confirmedList, *v)
 	}
 
+	// a counterexample that does not reproduce natively is an engine mismatch, unless another model of the
+	// same obligation did reproduce (time- and schedule-dependent models are not all replayable)
+	for _, u := range unconfirmed {
+		parts := strings.SplitN(u, "\x00", 2)
+		if !confirmedLabel[parts[0]] {
+			eng.addError(parts[1])
+		}
+	}
 	if len(eng.errors) > 0 || os.Getenv("GOSYM_VERBOSE") != "" {
 		for s := range eng.initWarn {
 			if len(s) > 1200 {
